@@ -188,6 +188,7 @@ func clip(s string) string {
 }
 
 func run(t interface{ Fatalf(string, ...any) }, c *Case, sub string) {
+	defer fix.Track(prop, sub, c, c.Summary())()
 	var f facts
 	c.Tree.scan(&f, -1)
 	var cl []string
